@@ -276,7 +276,12 @@ def render(events, plain=False):
             if (not plain and nxt is not None and nxt[0] == 'block' and not (len(e) > 2 and e[2])
                     and (len(e[1]) + len(nxt[1]) + k) % 3 == 0):
                 # two block directives in one comment, comma separated: applied in order
-                text += ', ' + spell(nxt[1], k + 1, plain).split(':', 1)[1].strip()
+                # (separated by a comma or, like the standard doctest module allows, by blanks only)
+                sep = ', ' if (len(e[1]) + k) % 2 else '  '
+                nxt_text = spell(nxt[1], k + 1, plain).split(':', 1)[1].strip()
+                if sep != ', ' and nxt_text[0] not in '+-':
+                    nxt_text = '+' + nxt_text       # blanks only separate options that carry their sign
+                text += sep + nxt_text
                 e = nxt
                 k += 1
             L.append('>>> ' + text)
@@ -424,6 +429,8 @@ def _check_history(ctx, events, defaults, origin, base):
         ctx.cell('spelling:doctest-prefix')
     if _re.search(r'# ?x?doctest: ?[+-]?[A-Za-z_]+(\([^)]*\))?, ', doc):
         ctx.cell('spelling:two-directives-in-one-comment')
+    if _re.search(r'# ?x?doctest: ?[+-]?[A-Za-z_]+(\([^)]*\))?  [+-][A-Za-z]', doc):
+        ctx.cell('spelling:two-directives-separated-by-blanks')
     if _re.search(r'doctest: *[+-]?[a-z]', doc):
         ctx.cell('spelling:lower-case-name')
     if _re.search(r'doctest: *[A-Za-z]', doc):
@@ -488,7 +495,7 @@ def required_cells(tier):
              'defaults:+REQUIRES(%s)' % UNMET_A, 'defaults:+REQUIRES(module:os)', 'f9-probe-behaves',
              'cond:flag', 'cond:env:XV_E', 'cond:tag', 'world-changed-inside-the-doctest', 'defaults:+REQUIRES(--xvf)',
              'defaults:+REQUIRES(env:XV_E==1)', 'defaults:+REQUIRES(cpython, linux)', 'spelling:doctest-prefix', 'spelling:two-directives-in-one-comment', 'spelling:lower-case-name',
-             'spelling:no-sign', 'spelling:blanks-inside-arguments']
+             'spelling:no-sign', 'spelling:blanks-inside-arguments', 'spelling:two-directives-separated-by-blanks']
     cells += ['form:' + f for f in FORMS] + ['blocktail:' + t for t in BLOCK_TAILS]
     return cells
 
